@@ -98,10 +98,19 @@ class S:
             for _ in range(self.r.randint(1, 3)):
                 n = self.name()
                 fs.append(n if self.chance(0.4) else "%s: %s" % (n, self.pat(d - 1)))
+            if self.comments and self.chance(0.12):      # one field per line, a comment before one of them
+                self.nc += 1
+                k2 = self.r.randrange(len(fs))
+                lines = []
+                for i2, f in enumerate(fs):
+                    if i2 == k2:
+                        lines.append("// c%d in pattern" % self.nc)
+                    lines.append(f + ",")
+                return "%s {\n%s\n}" % (self.pick(UPNAMES), "\n".join(lines))
             return "%s { %s%s }" % (self.pick(UPNAMES), ", ".join(fs), self.pick(["", ", .."]))
         if k == 7:
             ps = [self.pat(d - 1) for _ in range(self.r.randint(0, 3))]
-            tail = self.pick(["", "", "..", ".." + self.name()]) if ps else ""
+            tail = self.pick(["", "", "..", ".." + self.name(), ".._" + self.name()]) if ps else ""
             return "[%s%s]" % (", ".join(ps), (", " + tail) if tail else "")
         if k == 8:
             return "(%s)" % ", ".join(self.pat(d - 1) for _ in range(self.r.randint(2, 3)))
